@@ -174,8 +174,6 @@ func init() {
 		"(*sync.WaitGroup).Add":    noop,
 		"(*sync.WaitGroup).Done":   noop,
 		"(*sync.WaitGroup).Wait":   noop,
-		"(*sync.Cond).Broadcast":   noop,
-		"(*sync.Cond).Signal":      noop,
 		"sync.runtime_registerPoolCleanup": noop,
 		"runtime.SetFinalizer":     noop,
 		"runtime.KeepAlive":        noop,
